@@ -37,6 +37,22 @@ def run(ctx):
         idx = int(ms[0].split("case=")[1].split()[0])
         vlib.violation(ctx, "cli", {"kind": "the goose command behaves differently from the model proved to meet the property", "mismatch": ms[:8],
                                     "driver_cmd": cmdx, "case_index": idx, "case": vlib.history_lines(cmdx, idx, "K", "E")[:40]}, True)
+    # which packages count as failed must not depend on the workers' schedule: a race-detector build
+    # of goose translates a module with translatable and untranslatable packages side by side
+    from checks import c06
+    cmdr, mr, str_ = c06.run_det(ctx, ctx.seed * 11 + 5, 9, 0, 0, 2 if quick else 10)
+    races = [m for m in mr if "kind=data-race" in m]
+    ctx.cov["race_detector_runs_of_goose_on_mixed_modules"] = str_.get("race_runs", 0)
+    if races and not mism:
+        import binascii
+        rep = races[0].split("report=")[1].split()[0] if "report=" in races[0] else ""
+        try:
+            rep = binascii.unhexlify(rep).decode("utf8", "replace")[:2500]
+        except Exception:
+            pass
+        vlib.violation(ctx, "race", {"kind": "data race between the per-package workers while translating packages with different outcomes (exit status and written files then depend on the schedule)",
+                                     "driver_cmd": cmdr, "report": rep}, True)
+        return
     if mism:
         report(cmd, mism)
     elif failures:
